@@ -12,7 +12,7 @@ use std::panic::{catch_unwind, AssertUnwindSafe};
 pub struct C09;
 
 #[derive(Clone, Debug, Serialize, Deserialize)]
-pub enum Base { Snippet(u32), File(u32), Gen(Vec<(u8, u32)>) }
+pub enum Base { Snippet(u32), File(u32), Gen(Vec<(u8, u32)>), Gram(Vec<u32>), Doc(Vec<u32>) }
 
 #[derive(Clone, Debug, Serialize, Deserialize)]
 pub enum Case {
@@ -38,6 +38,8 @@ pub const ALPHABET: &[&str] = &[
   " ", "  ", "    ", "\t", "\n", "\n\n", "\r\n", "\r", "1.", "1. ", "- ", "-[x] ", "-[ ] ", "* ", "> ", "(i)> ", "(!)> ", "(?)> ", ">: ", "===", "=====", "---", "-----", "***",
   "![", "](", "[^", "]:", "{{", "}}", "$$", "__", "~~", "!!", "http://x.y", "https://", "<<:", ":>>", "mech", "```mech", "```mech:disabled", "```mech:ns", "```python", "```ebnf", "```{diagram}",
   "Hello world", "The value", "is set here.", "fn", "f(x<f64>) = <f64>", "|", "*", "x?", "match", "├ 1 => 2", "└ * => 0.", "#M(n) -> :A(n)", "=> n.", "{ x | x <- 1..3 }", "<-", "..3", "x[1]", "x[1,:]", "x.a", "x{1}", "x[[true false]]",
+  // link / image / footnote / inline-markup fragments, complete and empty (appended: earlier indices keep their meaning)
+  "[a link](url)", "[a]()", "]()", "](url)", "![alt](src)", "![]()", "[^1]", "[^1]: note", "[ref]", "[]", "()", "{{x}}", "{{}}", "{x}", "$$x$$", "$$$$", "**b**", "****", "*e*", "__", "_u_", "~s~", "~~", "!!h!!", "!!!!", "`c`", "``", "§1", "%% ", ">> ", "<< ",
 ];
 
 pub const STRESS: &[&str] = &[
@@ -51,6 +53,8 @@ fn base_text(b: &Base) -> Option<String> {
     Base::Snippet(i) => { let c = c08::corpus("snippets"); if c.is_empty() { None } else { Some(c[*i as usize % c.len()].1.clone()) } }
     Base::File(i) => { let c = c08::corpus("files"); if c.is_empty() { None } else { Some(c[*i as usize % c.len()].1.clone()) } }
     Base::Gen(v) => c08::case_text(&c08::Case::Gen(v.clone())),
+    Base::Gram(v) => Some(crate::xgen::program(v).0),
+    Base::Doc(v) => Some(crate::xgen::document(v).0),
   }
 }
 
@@ -216,7 +220,8 @@ impl Prop for C09 {
   fn timeout_ms(_t: Tier) -> u64 { 20_000 }
   fn timeout_is_violation() -> bool { false }
   fn strategy(_t: Tier, _k: &Known) -> BoxedStrategy<Case> {
-    let base = || prop_oneof![4 => any::<u32>().prop_map(Base::Snippet), 2 => any::<u32>().prop_map(Base::File), 3 => proptest::collection::vec((0..c08::NCONSTRUCTS, any::<u32>()), 1..=4).prop_map(Base::Gen)];
+    let base = || prop_oneof![4 => any::<u32>().prop_map(Base::Snippet), 2 => any::<u32>().prop_map(Base::File), 2 => proptest::collection::vec((0..c08::NCONSTRUCTS, any::<u32>()), 1..=4).prop_map(Base::Gen),
+      4 => proptest::collection::vec(0u32..1_000_000, 3..=40).prop_map(Base::Gram), 6 => proptest::collection::vec(0u32..1_000_000, 3..=30).prop_map(Base::Doc)];
     let alpha = proptest::collection::vec(0u16..ALPHABET.len() as u16, 0..=60).prop_map(Case::Alpha).boxed();
     let stress = proptest::collection::vec(any::<u16>(), 0..=40).prop_map(Case::Stress).boxed();
     let mutant = (base(), proptest::collection::vec((0u8..9, any::<u32>(), any::<u32>()), 1..=6)).prop_map(|(base, muts)| Case::Mutant { base, muts }).boxed();
